@@ -218,6 +218,13 @@ func (e *evidence) CaseH(nontrivial bool, key uint64, labels ...string) {
 	e.mu.Unlock()
 }
 
+// AddEvals counts n more evaluated inputs (batched checks).
+func (e *evidence) AddEvals(n int) {
+	e.mu.Lock()
+	e.evals += int64(n)
+	e.mu.Unlock()
+}
+
 func (e *evidence) Label(l string) {
 	e.mu.Lock()
 	e.labels[l]++
